@@ -474,6 +474,43 @@ def run_shared_parser(shard, ctx):
                     what = 'the text of the workbook configured BEFORE' if (o is not None and o.ok and o.value == base_small.value) else (o.brief() if o is not None else 'no answer')
                     report(r, ID, None, {'trial': trial, 'what': f'one Parser, two threads: call {tag} ({"get_translation" if tag == "a" or second == "get" else "write_translation"}), the second call started after {frac:.2f} of a translation'},
                            what, 'the text of the configured workbook (sha %s)' % want[:12], monitor='shared-parser')
+    # a SETTER from another thread while a translation is running: once that translation has returned, the next request answers for
+    # the settings in force now
+    want_small = hashlib.sha256(base_small.value.encode()).hexdigest()
+    for trial, frac in enumerate([0.2, 0.5, 0.8] if ctx.tier == 'quick' else [0.05 * k for k in range(1, 19)]):
+        for which in ('path', 'entry', 'safety'):
+            p = pipeline.make_parser(big)
+            done = {}
+
+            def first():
+                done['a'] = pipeline.guarded(lambda: p.get_translation(), 'translate')
+                done['a_end'] = time.perf_counter()
+            ta = threading.Thread(target=first)
+            ta.start()
+            time.sleep(dur * frac)
+            t_set = time.perf_counter()
+            if which == 'path':
+                p.set_excel_file_path(small)
+                fresh = pipeline.make_parser(small)
+            elif which == 'entry':
+                p.set_entrypoint_cell(pipeline.entry_cell('Big', 'B3'))
+                fresh = pipeline.make_parser(big, entry=pipeline.entry_cell('Big', 'B3'))
+            else:
+                p.enable_safety_check()
+                fresh = pipeline.make_parser(big, safety=True)
+            ta.join(300)
+            after = pipeline.guarded(lambda: p.get_translation(), 'translate')
+            want_now = pipeline.guarded(lambda: fresh.get_translation(), 'translate')
+            r.ev()
+            r.count('setter_during_translation_trials')
+            if done.get('a_end', 0) > t_set:
+                r.count('setter_during_translation_trials_overlapping')
+            r.nt(('setter-race', trial, which))
+            same = (after.ok == want_now.ok) and (not after.ok or after.value == want_now.value)
+            if not same:
+                report(r, ID, None, {'trial': trial, 'what': f'one Parser: {which} changed by a setter after {frac:.2f} of a running translation; then the translation returned and get_translation was asked'},
+                       'the text for the settings BEFORE the setter' if (after.ok and done.get('a') is not None and done['a'].ok and after.value == done['a'].value) else after.brief(),
+                       'the text a Parser of its own returns for the settings in force', monitor='shared-parser')
     if not r.counters.get('shared_parser_trials_overlapping'):
         r.inconcl('no shared-parser trial overlapped (the first call had returned before the second started)')
     r.sample({'shared_parser': {'rows': rows, 'seconds_per_translation': round(dur, 3)}})
